@@ -150,7 +150,31 @@ def forbidden_scan():
     return hits
 
 
+def prop_files(prop):
+    """Props/<prop>.v and its siblings Props/<prop><suffix>.v (e.g. C12.v, C12crash.v, C12race.v)."""
+    d = os.path.join(COQ, "Props")
+    return sorted(f for f in os.listdir(d) if re.fullmatch(re.escape(prop) + r"[a-z]*\.v", f))
+
+
 def audit_props(prop):
+    """Audits every Props file of the property; merges the ledgers."""
+    merged = dict(ok=True, rc=0, theorems=[], assumptions={}, problems=[], log="", wall=0.0)
+    files = prop_files(prop)
+    if not files:
+        merged.update(ok=False, problems=[f"no Props/{prop}*.v file"])
+    for f in files:
+        a = audit_one(f[:-2])
+        merged["ok"] = merged["ok"] and a["ok"]
+        merged["rc"] = merged["rc"] or a["rc"]
+        merged["theorems"] += a["theorems"]
+        merged["assumptions"].update(a["assumptions"])
+        merged["problems"] += a["problems"]
+        merged["log"] += a["log"][-800:]
+        merged["wall"] += a["wall"]
+    return merged
+
+
+def audit_one(prop):
     """Compile Props/<prop>.v on its own and read theorem names and Print Assumptions output."""
     src = os.path.join(COQ, "Props", f"{prop}.v")
     text = open(src).read()
@@ -195,7 +219,8 @@ def audit_props(prop):
 
 def coqchk(prop):
     """Independent re-check of Props/<prop>.vo and everything it depends on (thorough tier)."""
-    rc, out, err, dt = run(["coqchk", "-silent", "-o", "-Q", ".", "Anydb", f"Anydb.Props.{prop}"], cwd=COQ, timeout=3000)
+    mods = [f"Anydb.Props.{f[:-2]}" for f in prop_files(prop)]
+    rc, out, err, dt = run(["coqchk", "-silent", "-o", "-Q", ".", "Anydb"] + mods, cwd=COQ, timeout=3400)
     text = out + err
     axioms = []
     m = re.search(r"\* Axioms:(.*?)\n\s*\n\* Constants/Inductives relying on type-in-type", text, re.S)
